@@ -189,7 +189,7 @@ func (g *sgen) value(typ string, uniq int) string {
 	case "uint64":
 		return strconv.FormatUint(uint64(r.Intn(1<<30))*uint64(1+r.Intn(1000)), 10)
 	case "string":
-		return []string{"abc", "x", "hello world", "007", "1.50", "tRue", "a b", "é", "true", "0.0000001", "9007199254740993"}[r.Intn(11)]
+		return []string{"abc", "x", "hello world", "007", "1.50", "tRue", "a b", "é", "true", "0.0000001", "9007199254740993", " lead", "trail "}[r.Intn(13)]
 	case "bytes":
 		return []string{"abc", "x", "00"}[r.Intn(3)]
 	case "bool":
